@@ -9,10 +9,10 @@ import ScrapliModel.Gen.LogConsts
   Python `str` = `List Char` (code points), `bytes` = `List UInt8`.  A Python exception is a value
   of `PyErr` in `Except`; reading an attribute that a record does not have is `attr none`.
 
-  The code exists in two variants: the tree before and after the three C20 fixes
-  (fixes/C20-*.patch).  `Variant` has one flag per fix, so that the same definitions are the model of
-  either tree; `Variant.fixed` is the code the full theorems are about, `Variant.legacy` is /repo at
-  8ae1258 and is refuted by the stored witnesses (ScrapliProps/C20.lean).
+  Line numbers refer to /repo at 759456d.  `Variant` has one flag per C20 fix (fixes/C20-*.patch =
+  commits 58f1a8a, 93127cf, f3dbcd6), so that the same definitions are also the model of the tree
+  before each fix: `Variant.fixed` is the code that exists and that the full theorems are about,
+  `Variant.legacy` is /repo at 8ae1258 and is refuted by the stored witnesses (ScrapliProps/C20.lean).
 -/
 namespace Scrapli.Log
 open Scrapli Scrapli.Gen.Log
@@ -104,7 +104,7 @@ deriving Repr, DecidableEq
 def Variant.fixed : Variant := ⟨true, true, true⟩
 def Variant.legacy : Variant := ⟨false, false, false⟩
 
-/-! ## ScrapliFormatter (logging.py:27-134) -/
+/-! ## ScrapliFormatter (logging.py:27-139) -/
 
 structure FmtCfg where
   logHeader : Bool := true
@@ -139,7 +139,7 @@ def attr {α : Type} (o : Option α) : Except PyErr α :=
   | some v => .ok v
   | none => .error .attributeError
 
-/-- `x[:limit] if len(x) <= limit else f"{x[:keep]}..."` (logging.py:110-112, 115-120) -/
+/-- `x[:limit] if len(x) <= limit else f"{x[:keep]}..."` (logging.py:115-117, 120-125) -/
 def truncate (limit keep : Nat) (s : Str) : Str :=
   if s.length ≤ limit then s.take limit else s.take keep ++ ellipsis
 
@@ -147,29 +147,29 @@ def logFormat (cfg : FmtCfg) : List Piece := if cfg.callerInfo then fmtCaller el
 
 /-- `ScrapliFormatter.formatMessage(record)` with `self.message_id = id`; `message` is
     `record.message`, set by `Formatter.format` just before.  Returns the text; on success the
-    caller advances `message_id` (logging.py:132). -/
+    caller advances `message_id` (logging.py:137). -/
 def formatMessage (v : Variant) (cfg : FmtCfg) (id : Nat) (r : Rec) (message : Str) : Except PyErr Str := do
-  -- :97-103
+  -- :97-108
   let hostPort ←
     if r.host.isNone then pure []                                   -- not hasattr(record, "host")
-    else if v.portDefault && r.port.isNone then attr r.host         -- (fix) host but no port
+    else if v.portDefault && r.port.isNone then attr r.host         -- :102-106 (f3dbcd6) host but no port
     else do
       let h ← attr r.host
       let p ← attr r.port                                           -- AttributeError when absent
       pure (h ++ [':'] ++ p)
-  -- :105
+  -- :110
   let uid := match r.uid with
     | none => []
     | some u => u ++ [':']
-  -- :108-112
+  -- :113-117
   let target := truncate targetLimit targetKeep (uid ++ hostPort)
-  -- :114-120
+  -- :119-125
   let module := if cfg.callerInfo then truncate callerLimit callerKeep r.module else r.module
   let funcName := if cfg.callerInfo then truncate callerLimit callerKeep r.funcName else r.funcName
-  -- :122
+  -- :127
   let line := renderPieces (logFormat cfg)
     ⟨natStr id, r.asctime, r.levelname, target, module, funcName, natStr r.lineno, message⟩
-  -- :124-130
+  -- :129-135
   if id == firstMessageId && cfg.logHeader then
     let hdr := renderPieces (logFormat cfg)
       ⟨hdrMessageId, hdrAsctime, hdrLevelname, pad ' ' target.length hdrTarget, hdrModule, hdrFuncName,
@@ -183,7 +183,7 @@ def format (v : Variant) (cfg : FmtCfg) (id : Nat) (r : Rec) : Except PyErr Str 
   let m ← getMessage r
   formatMessage v cfg id r m
 
-/-! ## logging.StreamHandler.emit and ScrapliFileHandler (logging.py:137-230) -/
+/-! ## logging.StreamHandler.emit and ScrapliFileHandler (logging.py:142-269) -/
 
 /-- what one `StreamHandler.emit` does: write `text + "\n"` to the stream, or report the exception
     through `Handler.handleError` ("--- Logging error ---" on stderr) and write nothing -/
@@ -209,37 +209,37 @@ def baseEmit (v : Variant) (cfg : FmtCfg) (h : HSt) (r : Rec) : HSt :=
 /-- `ScrapliFileHandler.emit_buffered()` (called only with a record in the buffer) -/
 def emitBuffered (v : Variant) (cfg : FmtCfg) (h : HSt) : HSt :=
   match h.buf with
-  | none => { h with out := h.out ++ [.error .scrapliException] }   -- :186-189 (raises)
+  | none => { h with out := h.out ++ [.error .scrapliException] }   -- :191-194 (raises)
   | some b =>
-    -- :191 self._record_buf.msg = f"read : {self._record_msg_buf!r}"   (+ fix: .args = None)
+    -- :196-199 self._record_buf.msg = f"read : {self._record_msg_buf!r}"; (58f1a8a) .args = None
     let b' := { b with msg := bufferedHead ++ reprBytes h.msgBuf,
                        args := if v.lazyAware then [] else b.args }
-    let h := baseEmit v cfg h b'                                      -- :192
-    { h with buf := none, msgBuf := [] }                              -- :193-194
+    let h := baseEmit v cfg h b'                                      -- :200
+    { h with buf := none, msgBuf := [] }                              -- :201-202
 
 def isRead (r : Rec) : Bool := readPrefix.isPrefixOf r.msg
 
-/-- the bytes a read record adds to the buffer: legacy `record.msg[6:].encode()`,
-    fixed `record.getMessage()[6:].encode()` inside try/except -/
+/-- the bytes a read record adds to the buffer (:228-235): `record.getMessage()[6:].encode()` inside
+    try/except; before 58f1a8a `record.msg[6:].encode()` -/
 def payload (v : Variant) (r : Rec) : Except PyErr Bytes :=
   if v.lazyAware then (getMessage r).map fun m => encode (m.drop readPrefix.length)
   else .ok (encode (r.msg.drop readPrefix.length))
 
 /-- `ScrapliFileHandler.emit(record)` -/
 def emit (v : Variant) (cfg : FmtCfg) (h : HSt) (r : Rec) : HSt :=
-  if !isRead r then                                  -- :210
-    let h := if h.buf.isSome then emitBuffered v cfg h else h     -- :214-215
-    baseEmit v cfg h r                               -- :217
+  if !isRead r then                                  -- :218
+    let h := if h.buf.isSome then emitBuffered v cfg h else h     -- :222-223
+    baseEmit v cfg h r                               -- :225
   else
     match payload v r with
-    | .error e => { h with out := h.out ++ [.error e] }           -- (fix) handleError, record dropped
+    | .error e => { h with out := h.out ++ [.error e] }           -- :233-235 handleError, record dropped
     | .ok p =>
       match h.buf with
-      | none => { h with buf := some r, msgBuf := p }             -- :220-225
-      | some _ => { h with msgBuf := h.msgBuf ++ p }              -- :230
+      | none => { h with buf := some r, msgBuf := p }             -- :237-241
+      | some _ => { h with msgBuf := h.msgBuf ++ p }              -- :246
 
-/-- `ScrapliFileHandler.close()`: legacy = FileHandler.close (buffer dropped);
-    fixed = emit the buffered record first -/
+/-- `ScrapliFileHandler.close()` (:248-269, 93127cf): emit the buffered record, then FileHandler.close;
+    before the fix there was no override (buffer dropped) -/
 def close (v : Variant) (cfg : FmtCfg) (h : HSt) : HSt :=
   if v.flushOnClose && h.buf.isSome then emitBuffered v cfg h else h
 
@@ -274,7 +274,7 @@ def instanceExtras (host : Str) (port : Nat) (uid : Str) : Option Str × Option 
   (if hp then some host else none, if hp then some (natStr port) else none,
    if !uid.isEmpty then some uid else none)
 
-/-! ## Channel log (base_channel.py:275-325, sync_channel.py:55-82, async_channel.py:55-82) -/
+/-! ## Channel log (base_channel.py:275-328, 359-379; sync_channel.py:55-82, async_channel.py:55-82) -/
 
 inductive Sink where
   | off                 -- channel_log falsy
@@ -316,7 +316,7 @@ def chanStep (sink : Sink) (base : Rec) (s : ChanSt) : ChanOp → ChanSt
     let buf := stripCR chunk
     let s := { s with recs := s.recs ++ [readRec base buf] }
     if s.handle then { s with dest := s.dest ++ buf } else s
-  | .write i ri red => { s with recs := s.recs ++ [writeRec base i ri red] }   -- base_channel.py:371-374
+  | .write i ri red => { s with recs := s.recs ++ [writeRec base i ri red] }   -- base_channel.py:374-377
   | .close =>                                       -- base_channel.py:324-328
     match sink with
     | .bytesio => s                                 -- `self.channel_log is args.channel_log`: left open
